@@ -126,6 +126,7 @@ pub struct Rewriter<'a> {
     pub effects: Vec<String>,
     pub user_calls: Vec<String>,
     pub world: bool,
+    pub collect_type: Option<String>,
 }
 
 impl<'a> Rewriter<'a> {
@@ -247,10 +248,17 @@ impl<'a> Rewriter<'a> {
     /// R3: `E.filter_map(f).collect::<C>()`, `E.map(f).collect::<C>()`, `E.filter(f).collect::<C>()`
     fn r3_collect(&mut self, e: &ExprMethodCall) -> Option<Expr> {
         let turbofish = e.turbofish.as_ref()?;
-        let cty = match turbofish.args.first()? {
+        let mut cty = match turbofish.args.first()? {
             GenericArgument::Type(t) => t.clone(),
             _ => return None,
         };
+        if cty.to_token_stream().to_string().contains('_') {
+            // `collect::<Vec<_>>()`: the element type comes from the unit (a wrong one is a type error => exit 2)
+            if let Some(t) = &self.collect_type {
+                cty = syn::parse_str(t).unwrap();
+                self.fired.push("R3-collect-type-from-unit".into());
+            }
+        }
         let inner = match &*e.receiver {
             Expr::MethodCall(m) => m,
             _ => return None,
@@ -410,6 +418,20 @@ impl<'a> VisitMut for Rewriter<'a> {
         visit_mut::visit_expr_mut(self, e);
     }
 
+    fn visit_pat_mut(&mut self, p: &mut Pat) {
+        // R14: the irrefutable pattern `&()` becomes `_` (Verus has no reference patterns)
+        if let Pat::Reference(r) = p {
+            if let Pat::Tuple(t) = &*r.pat {
+                if t.elems.is_empty() {
+                    *p = parse_quote! { _ };
+                    self.fired.push("R14-unit-ref-pattern".into());
+                    return;
+                }
+            }
+        }
+        visit_mut::visit_pat_mut(self, p);
+    }
+
     fn visit_expr_closure_mut(&mut self, c: &mut ExprClosure) {
         // R12: `_` closure parameters are named
         for (i, p) in c.inputs.iter_mut().enumerate() {
@@ -452,6 +474,7 @@ pub fn apply_all(block: &mut Block, item: &Value, fired: &mut Vec<String>, name:
         effects: list("effects"),
         user_calls: list("user_calls"),
         world: item.get("world").and_then(|x| x.as_bool()).unwrap_or(false),
+        collect_type: item.get("collect_type").and_then(|x| x.as_str()).map(String::from),
     };
     rw.visit_block_mut(block);
 }
